@@ -126,8 +126,9 @@ def run(chk, tier, seed):
                 ns = start + 1 - nsec - gap if ents else start + 1 - nsec
                 if ns < low + (cnt - len(ents)):
                     ln, nsec, ns = 0, 0, max(low, start)
-                # every name exists in two directories, so a lookup that picks the wrong directory delivers the wrong body
-                ents.append(mkdisc.entry("F%02d" % (i // 2), "$" if i % 2 else "A", False, 0, 0, ln, ns if nsec else max(low, min(ns, start))))
+                # every name exists in two directories, so a lookup that picks the wrong directory delivers the wrong body; and some
+                # names are prefixes of later ones (F1 / F10..), so a lookup that stops at a prefix delivers the wrong body too
+                ents.append(mkdisc.entry(("F%d" if n % 2 else "F%02d") % (i // 2), "$" if i % 2 else "A", False, 0, 0, ln, ns if nsec else max(low, min(ns, start))))
                 if nsec:
                     start = ns - 1
                 i += 1
